@@ -1,6 +1,7 @@
 package main
 
 import (
+	"bytes"
 	"fmt"
 	"io"
 	"math/rand"
@@ -63,6 +64,25 @@ func runWorkers(c *Ctx, g int, body func(w int, rng *rand.Rand)) {
 func concBloom(c *Ctx, g int) {
 	f, _ := gostatix.NewMemBloomFilterWithParameters(200, 0.01)
 	seq, _ := gostatix.NewMemBloomFilterWithParameters(200, 0.01)
+	if c.rng.Intn(3) == 0 {
+		// the shared filter is one that was restored: ReadFrom into a zero value, or Import into a
+		// constructed one - it must be as safe for concurrent use as a constructed filter
+		var buf bytes.Buffer
+		f.WriteTo(&buf)
+		if c.rng.Intn(2) == 0 {
+			g2 := &gostatix.BloomFilter{}
+			if _, err := g2.ReadFrom(&buf); err == nil {
+				f = g2
+				c.branch("bloom-restored-by-ReadFrom")
+			}
+		} else if doc, err := f.Export(); err == nil {
+			g2, _ := gostatix.NewMemBloomFilterWithParameters(10, 0.1)
+			if g2.Import(doc) == nil {
+				f = g2
+				c.branch("bloom-restored-by-Import")
+			}
+		}
+	}
 	if c.rng.Intn(2) == 0 {
 		// the other in-memory constructor
 		f = gostatix.NewMemBloomFilterFromBitSet(make([]uint64, 30), 7)
